@@ -339,7 +339,10 @@ class MuxSocketTransportSink(ClientMessageSink):
       The ClientChannelSinkStack associated with the tag's response.
     """
     tup = self._tag_map.pop(tag, None)
-    self._tag_pool.release(tag)
+    if tup is not None:
+      # Only tags that are actually awaiting a response may go back to the
+      # pool; the peer can name reserved, unknown or already answered tags.
+      self._tag_pool.release(tag)
     return tup
 
   @abstractmethod
